@@ -419,6 +419,54 @@ fn run_case<'a>(ctx: &'a Ctx, case: u64, acc: &'a mut Acc) -> CaseFut<'a> {
                 }
             }
         }
+        // the same for a room definition row: two additions of a group pipelined on the mutation stream (and, as a
+        // control, one after the other); both are acknowledged, the room the instance decides with must hold both
+        for round in 0..3 {
+            let room = match peer.create_room(&spec).await {
+                Ok(r) => r,
+                Err(_) => break,
+            };
+            let before = peer.room(room.id).await.map(|r| r.authorisations.len()).unwrap_or(0);
+            let texts: Vec<(String, Parameters)> = ["Pet", "ns.Thing"]
+                .iter()
+                .map(|ent| {
+                    let mut p = Parameters::new();
+                    p.add("room", room.id64()).unwrap();
+                    (format!("mutate {{ sys.Room{{ id:$room authorisations:[{{ name:\"added for {}\" rights:[{{entity:\"{}\" mutate_self:true mutate_all:true}}] }}] }} }}", ent, ent), p)
+                })
+                .collect();
+            let sequential = round == 2;
+            let mut acks = 0;
+            if sequential {
+                for (t, p) in texts {
+                    if peer.mutate(&t, Some(p)).await.is_ok() {
+                        acks += 1;
+                    }
+                }
+            } else {
+                let (tx, mut rx) = peer.db.mutation_stream();
+                for (t, p) in texts {
+                    let _ = tx.send((t, Some(p))).await;
+                }
+                for _ in 0..2 {
+                    if let Some(Ok(_)) = rx.recv().await {
+                        acks += 1;
+                    }
+                }
+                drop(tx);
+            }
+            peer.barrier().await;
+            acc.count("room_definition_groups", 1);
+            if acks == 2 {
+                let after = peer.room(room.id).await.map(|r| r.authorisations.len()).unwrap_or(0);
+                if after != before + 2 {
+                    acc.violation(
+                        if sequential { "C16/sequential-control/acknowledged-change-lost/room-definition" } else { "C16/acknowledged-change-lost/room-definition/pipelined-on-the-mutation-stream" },
+                        json!({"groups_before": before, "groups_acknowledged": 2, "groups_in_the_live_room": after}),
+                    );
+                }
+            }
+        }
         acc.count("groups_held", held_groups);
         acc.evaluations += groups as u64 - 1;
         if held_groups > 0 {
